@@ -266,9 +266,12 @@ func getUrl(_token Token, baseUrl string) (url pr.NamedString, attr pr.AttrData,
 		if utils.AsciiLower(token.Name) == "attr" {
 			attr = checkAttrFunction(token, "url")
 			return
-		} else if L := len(token.Arguments); token.Name == "url" && (L == 1 || L == 2) {
-			val, _ := (token.Arguments)[0].(pa.String)
-			return parseURLToken(val.Value, baseUrl)
+		} else if utils.AsciiLower(token.Name) == "url" {
+			// white space and comments around the string are not significant
+			if args := pa.RemoveWhitespace(token.Arguments); len(args) == 1 || len(args) == 2 {
+				val, _ := args[0].(pa.String)
+				return parseURLToken(val.Value, baseUrl)
+			}
 		}
 	}
 	return
